@@ -235,6 +235,9 @@ class Run:
                            stderr=subprocess.STDOUT, text=True, errors="replace")
         w = time.time() - t
         if p.returncode != 0:
+            lp = lib_panic(p.stdout, cwd or REPO)
+            if lp:
+                self._lib_panic(pkg, run, lp, p.stdout)
             raise Infra("driver %s -run %s failed (rc=%d, %.0fs):\n%s" % (pkg, run, p.returncode, w, tail(p.stdout, 60)))
         if "no tests to run" in p.stdout:
             raise Infra("driver %s -run %s: no tests to run" % (pkg, run))
@@ -243,6 +246,31 @@ class Run:
         if n == 0:
             raise Infra("driver %s -run %s wrote no events" % (pkg, run))
         return out
+
+    def _lib_panic(self, pkg, run, lp, out):
+        """The test binary died from a panic raised INSIDE go-zero (first frame of the panicking goroutine that
+        lies in the tree under verification is a library file, not a driver) while a driver was executing a
+        history the specification allows.  No specification in /verif has an action for a library panic, so the
+        real code did something the spec forbids: a violation (never reported for panics that start in driver
+        code, for test time-outs or for runtime deadlock reports - those stay infrastructure, exit 2).  For
+        extension specifications: EXT-MISMATCH, not a verdict."""
+        os.makedirs(REPLAYS, exist_ok=True)
+        path = os.path.join(REPLAYS, "%s-libpanic-%d-%d.txt" % (self.pid, self.seed, len(self.violations)))
+        with open(path, "w") as fh:
+            fh.write(json.dumps({"e": "header", "kind": "library panic", "driver": "%s -run %s" % (pkg, run),
+                                 "seed": self.seed, "tier": self.tier, "panic": lp["msg"], "frame": lp["frame"]}) + "\n")
+            fh.write(lp["excerpt"] + "\n")
+        if self.advisory_default:
+            log("EXT-MISMATCH (extension beyond property %s; not a verdict) library panic: %s at %s" %
+                (self.pid, lp["msg"][:200], lp["frame"]))
+            self.extra.setdefault("extension_mismatches", []).append(
+                {"label": "%s -run %s" % (pkg, run), "trace": path, "at": "library panic: " + lp["msg"][:200]})
+            return
+        log("VIOLATION property=%s replay=%s" % (self.pid, path))
+        log("  the real code panicked inside go-zero (not in the driver) on a history the specification allows;")
+        log("  no spec action admits it: %s" % lp["msg"][:300])
+        log("  at %s  (driver %s -run %s)" % (lp["frame"], pkg, run))
+        self.violations.append((path, "library panic: %s at %s" % (lp["msg"][:300], lp["frame"])))
 
     # ------------------------------------------------------------------ trace validation
     def validate(self, family, module, cfg, trace_file, label="", timeout=900, dfs=False,
@@ -417,6 +445,14 @@ class Run:
         """Re-validate a recorded (rejected) trace from /verif/replays."""
         lines = [ln for ln in open(path).read().splitlines() if ln.strip()]
         if lines and json.loads(lines[0]).get("e") == "header":
+            h = json.loads(lines[0])
+            if h.get("kind") == "library panic":
+                # a recorded crash of the real code inside go-zero: nothing to re-validate, the record stands
+                log("VIOLATION property=%s replay=%s" % (self.pid, path))
+                log("  recorded library panic (%s, seed %s): %s at %s" % (h.get("driver"), h.get("seed"), h.get("panic"), h.get("frame")))
+                log("  re-run the driver with: VERIF_SEED=%s ./check %s --tier %s" % (h.get("seed"), self.pid, h.get("tier")))
+                self.violations.append((path, "library panic"))
+                return False
             lines = lines[1:]
         tf = self.tmp("replay.ndjson")
         with open(tf, "w") as fh:
@@ -458,6 +494,46 @@ class Run:
         with open(os.path.join(EVIDENCE, self.pid + ".json"), "w") as fh:
             json.dump(ev, fh, indent=1, sort_keys=True)
             fh.write("\n")
+
+
+def lib_panic(out, root):
+    """Parse a crashed `go test` output.  Returns {msg, frame, excerpt} when the goroutine that panicked
+    ([running], right after a `panic:` / `fatal error:` line) has as its FIRST frame inside the tree under
+    verification a non-test library file; None for driver panics, test time-outs, deadlock reports, build
+    failures and anything unclear."""
+    lines = out.splitlines()
+    root = os.path.realpath(root).rstrip("/") + "/"
+    for i, ln in enumerate(lines):
+        if not (ln.startswith("panic: ") or ln.startswith("fatal error: ")):
+            continue
+        if "test timed out" in ln or "all goroutines are asleep" in ln:
+            return None
+        msg = ln
+        j = i + 1
+        while j < len(lines) and not re.match(r"goroutine \d+ (gp=\S+ m=\S+ mp=\S+ )?\[running", lines[j]):
+            if lines[j].startswith("\tpanic: ") or lines[j].startswith("panic: "):
+                msg += " / " + lines[j].strip()
+            j += 1
+            if j - i > 40:
+                break
+        if j >= len(lines) or not lines[j].startswith("goroutine "):
+            return None
+        k = j + 1
+        while k + 1 < len(lines) and lines[k].strip():
+            m = re.match(r"\t(\S+\.go):(\d+)", lines[k + 1]) if k + 1 < len(lines) else None
+            if m:
+                f = os.path.realpath(m.group(1)) if os.path.isabs(m.group(1)) else m.group(1)
+                if f.startswith(root):
+                    base = os.path.basename(f)
+                    if base.endswith("_test.go") or base.startswith("zz_verif"):
+                        return None
+                    return {"msg": msg, "frame": "%s:%s %s" % (f[len(root):], m.group(2), lines[k].strip()[:160]),
+                            "excerpt": "\n".join(lines[i:min(len(lines), k + 24)])}
+                k += 2
+            else:
+                k += 1
+        return None
+    return None
 
 
 def tail(s, n):
